@@ -70,3 +70,7 @@ def run(ctx):
             want.append((b.name, v, pl))
     SJ.run_session_jobs(ctx, 'C19', want, 'harness.props.C19', ('Fit',))
     ctx.exhaustive = False
+
+
+def replay(body):
+    return SJ.replay(body)
